@@ -388,7 +388,7 @@ example : csteps cCfg cRkeys cFkeys cSched (cinit cS1) ≤ totalW cCfg cRkeys cF
 example : Gen.C14.truncEveryChunk = false := by decide
 example : Gen.C14.openFlagsAlways = ["O_APPEND", "O_CREATE", "O_WRONLY"] := by decide
 example : Gen.C14.mkdirOnlyAtChunk0 = true := by decide
-example : Gen.C14.checksumCond = "args.ChunkIndex > 0 && len(args.ChunkData) == 0" := by decide
+example : Gen.C14.checksumCond = "len(args.ChunkData) == 0 && args.ChunkIndex > 0" := by decide
 example : Gen.C14.sendOrder = ["send-chunk", "check-bytes-written", "local-checksum", "compare-checksum", "remove-source"] := by decide
 example : Gen.C14.recOrder = ["send-records", "compare-count", "delete-local"] := by decide
 example : Gen.C14.deleteRange = "req.KeyValues" := by decide
